@@ -369,7 +369,7 @@ def make_groups(tier, seed):
             groups.append({'case': case, 't2': t2, 'first_stage': 'PREFIX' if meas == 'EDIT_DISTANCE' else 'POSITION',
                            'validate': False, 'src': 'person:%s:%s' % (attr, api)})
     A, B = ssj.load_books_dataset()
-    nb = 250 if tier == 'quick' else None
+    nb = 250 if tier == 'quick' else 1000        # (the full tables give 128 446 pairs on Publisher: 200 MB law records)
     for attr, tok, api, t, t2 in (('Title', {'kind': 'ws', 'rs': 1}, 'jaccard_join', [3, 10], [1, 2]),
                                   ('Author', {'kind': 'ws', 'rs': 0}, 'cosine_join', [1, 2], [7, 10]),
                                   ('Title', {'kind': 'alnum', 'rs': 1}, 'dice_join', [1, 2], [3, 5]),
